@@ -91,6 +91,9 @@ def backend_view(sim, tracked, sched, accounting=True):
             out[name] = "unknown"
             continue
         ph = j["phase"]
+        if sched == "slurm" and j.get("in_queue") and ph == "cancelled" and not j.get("code"):
+            out[name] = "cancelled"  # still listed by the live queue as CA: the live queue wins over a stale accounting record
+            continue
         if sched == "slurm" and j.get("in_queue") and j.get("code") in ("CG", "R", "PD"):
             # still listed by the live queue (e.g. COMPLETING) although accounting already knows the end:
             # the live queue wins
